@@ -979,7 +979,9 @@ fn parse_file_inner<T: ColumnType>(loc: Location) -> Result<Vec<Record<T>>, Pars
     if !path.exists() {
         return Err(ParseErrorKind::FileNotFound.at(loc.clone()));
     }
-    let script = std::fs::read_to_string(path).unwrap();
+    // e.g. an `include` pattern that also matches a directory, or a file that is not UTF-8
+    let script = std::fs::read_to_string(path)
+        .map_err(|e| ParseErrorKind::InvalidIncludeFile(e.to_string()).at(loc.clone()))?;
     let mut records = vec![];
     for rec in parse_inner(&loc, &script)? {
         records.push(rec.clone());
